@@ -293,22 +293,33 @@ def parse_single_name_into_parts(name, strict=True):
                 # BibTeX doesn't allow whitespace escaping. Copy the slash and fall
                 # through to the normal case to handle the whitespace.
                 if escaped in whitespace:
+                    # A brace directly followed by a backslash starts a special
+                    # character, whatever follows the backslash.
+                    if bracestart and level == 1:
+                        controlseq = False
+                        specialchar = True
                     word.append(char)
                     char = escaped
 
                 else:
-                    # Is this the first character in a brace?
-                    if bracestart:
+                    # Is this the first character in a top-level brace?
+                    # (only those are special characters)
+                    if bracestart and level == 1:
                         bracestart = False
                         controlseq = escaped.isalpha()
                         specialchar = True
 
-                    # Can we use it to determine the case?
-                    elif (case == -1) and escaped.isalpha():
-                        if escaped.isupper():
-                            case = 1
-                        else:
-                            case = 0
+                    else:
+                        # A backslash ends a control sequence.
+                        controlseq = False
+
+                        # Can we use it to determine the case?
+                        # (not inside ordinary braces, which are caseless)
+                        if (case == -1) and escaped.isalpha() and (level == 0 or specialchar):
+                            if escaped.isupper():
+                                case = 1
+                            else:
+                                case = 0
 
                     # Copy the escape to the current word and go to the next
                     # character in the input.
@@ -327,7 +338,8 @@ def parse_single_name_into_parts(name, strict=True):
             word.append(char)
             bracestart = True
             controlseq = False
-            specialchar = False
+            if level == 1:
+                specialchar = False
             continue
 
         # All the below cases imply this (and don't test its previous value).
@@ -343,9 +355,15 @@ def parse_single_name_into_parts(name, strict=True):
                     raise InvalidNameError(name=name, reason="Unmatched closing brace")
                 word.insert(0, "{")
 
+            # A special character without any letter is caseless, and so is
+            # the word: the following characters do not determine its case.
+            if specialchar and level == 0 and case == -1:
+                case = 1
+
             # Update the state, append the character, and move on.
             controlseq = False
-            specialchar = False
+            if level == 0:
+                specialchar = False
             word.append(char)
             continue
 
